@@ -206,6 +206,8 @@ pub enum TailOutcome {
 pub struct SideFx {
     pub kind: String,
     pub tag: Vec<u8>,
+    /// identity of the item where the record carries one (import module/name, export name, id)
+    pub key: String,
     pub content: String,
     /// decoded code body (probe / function records), references as encoded-module indices
     pub body: Vec<String>,
@@ -789,66 +791,186 @@ fn lower_op_code(op: &Op, arena: &mut Vec<u8>, ranges: &mut Vec<Vec<(usize, usiz
     ranges.push(v);
 }
 
+pub fn dt_to_vt(d: &wirm::DataType) -> Option<VT> {
+    use wirm::DataType as D;
+    Some(match d {
+        D::I32 => VT::I32,
+        D::I64 => VT::I64,
+        D::F32 => VT::F32,
+        D::F64 => VT::F64,
+        D::V128 => VT::V128,
+        D::FuncRef | D::FuncRefNull => VT::FuncRef,
+        D::ExternRef | D::ExternRefNull => VT::ExternRef,
+        _ => return None,
+    })
+}
+
+fn dts(v: &[wirm::DataType]) -> String {
+    format!("{:?}", v.iter().map(|d| dt_to_vt(d).map(|v| format!("{:?}", v)).unwrap_or(format!("{:?}", d))).collect::<Vec<_>>())
+}
+
+pub fn render_init(e: &wirm::ir::types::InitExpr) -> Vec<String> {
+    use wirm::ir::types::{InitInstr, Value};
+    e.instructions()
+        .iter()
+        .map(|i| match i {
+            InitInstr::Value(Value::I32(v)) => format!("i32:{v}"),
+            InitInstr::Value(Value::I64(v)) => format!("i64:{v}"),
+            InitInstr::Value(Value::F32(v)) => format!("f32:{}", v.to_bits()),
+            InitInstr::Value(Value::F64(v)) => format!("f64:{}", v.to_bits()),
+            InitInstr::Value(Value::V128(v)) => format!("v128:{v}"),
+            InitInstr::Global(g) => format!("global.get:{}", **g),
+            InitInstr::RefFunc(f) => format!("ref.func:{}", **f),
+            InitInstr::RefNull(_) => "ref.null".to_string(),
+            other => format!("{:?}", other),
+        })
+        .collect()
+}
+
+pub fn types_to_subt(t: &wirm::ir::module::module_types::Types) -> Option<SubT> {
+    use wirm::ir::module::module_types::Types as T;
+    let st = |d: &wirm::DataType| -> Option<ST> {
+        Some(match d {
+            wirm::DataType::I8 => ST::I8,
+            wirm::DataType::I16 => ST::I16,
+            d => ST::Val(dt_to_vt(d)?),
+        })
+    };
+    let sup = |p: &Option<wasmparser::PackedIndex>| p.and_then(|p| p.as_module_index());
+    Some(match t {
+        T::FuncType { params, results, super_type, is_final, shared, .. } => SubT {
+            is_final: *is_final,
+            supertype: sup(super_type),
+            shared: *shared,
+            comp: Comp::Func(
+                params.iter().map(dt_to_vt).collect::<Option<Vec<_>>>()?,
+                results.iter().map(dt_to_vt).collect::<Option<Vec<_>>>()?,
+            ),
+        },
+        T::ArrayType { fields, mutable, super_type, is_final, shared, .. } => SubT {
+            is_final: *is_final,
+            supertype: sup(super_type),
+            shared: *shared,
+            comp: Comp::Array(st(fields)?, *mutable),
+        },
+        T::StructType { fields, mutable, super_type, is_final, shared, .. } => SubT {
+            is_final: *is_final,
+            supertype: sup(super_type),
+            shared: *shared,
+            comp: Comp::Struct(fields.iter().zip(mutable.iter()).map(|(f, m)| Some((st(f)?, *m))).collect::<Option<Vec<_>>>()?),
+        },
+        T::ContType { .. } => return None,
+    })
+}
+
+pub fn render_types(t: &wirm::ir::module::module_types::Types) -> String {
+    use wirm::ir::module::module_types::Types as T;
+    let st = |d: &wirm::DataType| match d {
+        wirm::DataType::I8 => "I8".to_string(),
+        wirm::DataType::I16 => "I16".to_string(),
+        d => dt_to_vt(d).map(|v| format!("{:?}", v)).unwrap_or(format!("{:?}", d)),
+    };
+    match t {
+        T::FuncType { params, results, super_type, is_final, shared, .. } => {
+            format!("func{}->{} super={:?} final={is_final} shared={shared}", dts(params), dts(results), super_type.and_then(|p| p.as_module_index()))
+        }
+        T::ArrayType { fields, mutable, super_type, is_final, shared, .. } => {
+            format!("array[{} mut={mutable}] super={:?} final={is_final} shared={shared}", st(fields), super_type.and_then(|p| p.as_module_index()))
+        }
+        T::StructType { fields, mutable, super_type, is_final, shared, .. } => format!(
+            "struct{:?} super={:?} final={is_final} shared={shared}",
+            fields.iter().zip(mutable.iter()).map(|(f, m)| format!("{} mut={m}", st(f))).collect::<Vec<_>>(),
+            super_type.and_then(|p| p.as_module_index())
+        ),
+        T::ContType { .. } => "cont".to_string(),
+    }
+}
+
 fn render_fx(fx: &wirm::ir::module::side_effects::Injection) -> SideFx {
     use wirm::ir::module::side_effects::Injection as I;
     let ins_of = |b: &Vec<Operator>| -> Vec<Ins> { b.iter().map(Ins::from_op).collect() };
-    let mk = |kind: &str, tag: &Tag, content: String, body_ins: Vec<Ins>, target| SideFx {
+    let mk = |kind: &str, tag: &Tag, key: String, content: String, body: Vec<String>, body_ins: Vec<Ins>, target| SideFx {
         kind: kind.into(),
         tag: tag.data().clone(),
+        key,
         content,
-        body: vec![],
+        body,
         body_ins,
         target,
     };
     match fx {
-        I::Import { module, name, type_ref, tag } => {
-            mk("import", tag, format!("{module}/{name}/{:?}", type_ref), vec![], None)
-        }
-        I::Export { name, kind, index, tag } => mk("export", tag, format!("{name}/{:?}/{index}", kind), vec![], None),
-        I::Type { ty, tag } => {
-            let mut t = ty.clone();
-            // neutral rendering without the tag
-            if let wirm::ir::module::module_types::Types::FuncType { tag, .. }
-            | wirm::ir::module::module_types::Types::ArrayType { tag, .. }
-            | wirm::ir::module::module_types::Types::StructType { tag, .. }
-            | wirm::ir::module::module_types::Types::ContType { tag, .. } = &mut t
-            {
-                *tag = None;
-            }
-            mk("type", tag, format!("{:?}", t), vec![], None)
-        }
-        I::Memory { id, initial, maximum, tag } => {
-            mk("memory", tag, format!("{initial}/{:?}", maximum), vec![], Some((*id, None, String::new())))
-        }
-        I::PassiveData { data, tag } => mk("data", tag, format!("passive/{:?}", data), vec![], None),
-        I::ActiveData { memory_index, offset_expr, data, tag } => mk(
-            "data",
+        I::Import { module, name, type_ref, tag } => mk(
+            "import",
             tag,
-            format!("active/{memory_index}/{:?}/{:?}", offset_expr.instructions(), data),
+            format!("{module}/{name}"),
+            match type_ref {
+                wasmparser::TypeRef::Func(_) => "func",
+                wasmparser::TypeRef::Global(_) => "global",
+                wasmparser::TypeRef::Memory(_) => "memory",
+                wasmparser::TypeRef::Table(_) => "table",
+                wasmparser::TypeRef::Tag(_) => "tag",
+            }
+            .to_string(),
+            vec![],
             vec![],
             None,
         ),
-        I::Global { id, ty, shared, mutable, init_expr, tag } => mk(
+        I::Export { name, kind, index, tag } => mk(
+            "export",
+            tag,
+            name.clone(),
+            format!("{:?}/{index}", ExtKind::from_parser(*kind)),
+            vec![],
+            vec![],
+            None,
+        ),
+        I::Type { ty, tag } => mk(
+            "type",
+            tag,
+            String::new(),
+            types_to_subt(ty).map(|t| format!("{:?}", t)).unwrap_or_else(|| render_types(ty)),
+            vec![],
+            vec![],
+            None,
+        ),
+        I::Memory { id, initial, maximum, tag } => mk("memory", tag, format!("{id}"), format!("{initial}/{:?}", maximum), vec![], vec![], None),
+        I::PassiveData { data, tag } => mk("data", tag, String::new(), format!("passive/{:?}", data), vec![], vec![], None),
+        I::ActiveData { memory_index, offset_expr, data, tag } => mk(
+            "data",
+            tag,
+            String::new(),
+            format!("active/{memory_index}/{:?}", data),
+            render_init(offset_expr),
+            vec![],
+            None,
+        ),
+        I::Global { id, ty, shared: _, mutable, init_expr, tag } => mk(
             "global",
             tag,
-            format!("{:?}/{shared}/{mutable}/{:?}", ty, init_expr.instructions()),
+            format!("{id}"),
+            format!("{}/{mutable}", dt_to_vt(ty).map(|v| format!("{:?}", v)).unwrap_or(format!("{:?}", ty))),
+            render_init(init_expr),
             vec![],
-            Some((*id, None, String::new())),
+            None,
         ),
         I::Func { id, fname, sig, locals, body, tag } => mk(
             "func",
             tag,
-            format!("{:?}/{:?}/{:?}", fname, sig, locals),
+            format!("{id}"),
+            format!("{:?}/{}->{}/{}", fname, dts(&sig.0), dts(&sig.1), dts(locals)),
+            vec![],
             body.iter().map(|i| Ins::from_op(&i.op)).collect(),
-            Some((*id, None, String::new())),
+            None,
         ),
-        I::Local { target_fid, ty, tag } => mk("local", tag, format!("{:?}", ty), vec![], Some((*target_fid, None, String::new()))),
-        I::Table { tag } => mk("table", tag, String::new(), vec![], None),
-        I::Element { tag } => mk("element", tag, String::new(), vec![], None),
+        I::Local { target_fid, ty, tag } => mk("local", tag, format!("{target_fid}"), format!("{:?}", ty), vec![], vec![], None),
+        I::Table { tag } => mk("table", tag, String::new(), String::new(), vec![], vec![], None),
+        I::Element { tag } => mk("element", tag, String::new(), String::new(), vec![], vec![], None),
         I::FuncProbe { target_fid, mode, body, tag } => mk(
             "func_probe",
             tag,
             String::new(),
+            String::new(),
+            vec![],
             ins_of(body),
             Some((*target_fid, None, format!("{:?}", mode))),
         ),
@@ -856,6 +978,8 @@ fn render_fx(fx: &wirm::ir::module::side_effects::Injection) -> SideFx {
             "loc_probe",
             tag,
             String::new(),
+            String::new(),
+            vec![],
             ins_of(body),
             Some((*target_fid, Some(*target_opcode_idx), format!("{:?}", mode))),
         ),
